@@ -797,6 +797,45 @@ pub fn draw_shape(rng: &mut Rng, universe: &str, tier: Tier) -> MmcsShape {
     MmcsShape { universe: universe.to_string(), dims, cap_height, seed: rng.next_u64() }
 }
 
+/// C08's own shapes: one run in three replaces every power-of-two height class 2^l (l >= 2) by
+/// one height drawn from (2^(l-1), 2^l] (matrices of one class keep a common height, which is what
+/// the native tree demands), so that leaf layers and padded layer widths are not powers of two.
+pub fn draw_shape_c08(rng: &mut Rng, universe: &str, tier: Tier) -> (MmcsShape, bool) {
+    let mut shape = draw_shape(rng, universe, tier);
+    let a4 = universe == "U-KB4-A4";
+    if a4 && rng.chance(1, 3) {
+        // matrices sitting exactly on quaternary layers: heights top, top/4, top/16, ... (some repeated)
+        let top = shape.dims.iter().map(|d| d.0).max().unwrap();
+        let mut level = 0u32;
+        for (i, d) in shape.dims.iter_mut().enumerate() {
+            if i > 0 && rng.chance(2, 3) {
+                level += 2;
+            }
+            d.0 = (top >> level).max(1);
+        }
+        shape.cap_height = shape.cap_height.min(top.trailing_zeros() as usize);
+    }
+    if rng.chance(if a4 { 2 } else { 1 }, 3) {
+        // the tallest height h is drawn from (2^(L-1), 2^L]; a matrix k levels further up has
+        // ceil(h / 2^k) rows (the native tree refuses anything else)
+        let top = shape.dims.iter().map(|d| d.0).max().unwrap();
+        if top >= 4 {
+            let h = rng.range(top / 2 + 1, top);
+            let mut cand = shape.clone();
+            for d in cand.dims.iter_mut() {
+                let k = (top / d.0).trailing_zeros();
+                d.0 = h.div_ceil(1 << k);
+            }
+            // a shape the native commit refuses (panic) is not a shape
+            if run_case(&cand, &MFault { kind: "none".into(), index: 0, pos: 0 }).is_ok() {
+                return (cand, true);
+            }
+            return (shape, false);
+        }
+    }
+    (shape, true)
+}
+
 fn key_of(f: &MFault, o: &CaseOut) -> String {
     format!("{}:native={} circuit={}", f.kind, if o.native { "accept" } else { "reject" }, if o.circuit.is_ok() { "accept" } else { "reject" })
 }
@@ -805,8 +844,14 @@ pub fn one_run(ctx: &Ctx, idx: u64, out: &mut RunOut) {
     let mut rng = Rng::new(ctx.seed, "C08", idx);
     foldhash::sim::set_seed(mix(ctx.seed, idx));
     let uni = ["U-KB4", "U-BB4", "U-KB4-A4", "U-KB4-SALT", "U-KB4-P1"][(idx % 5) as usize];
-    let shape = draw_shape(&mut rng, uni, ctx.tier);
+    let (shape, accepted) = draw_shape_c08(&mut rng, uni, ctx.tier);
+    if !accepted {
+        out.count("non_power_of_two_shape_refused_by_native_commit");
+    }
     let max_h = shape.dims.iter().map(|d| d.0).max().unwrap();
+    if shape.dims.iter().any(|d| !d.0.is_power_of_two()) {
+        out.count("shapes_with_non_power_of_two_heights");
+    }
     if out.samples.is_empty() {
         out.samples.push(json!({"shape": shape}));
     }
